@@ -264,12 +264,34 @@ def reorder_params(facts):
     definition and at every call: rules then do not depend on the parameter order."""
     baseline()
     perm = {}
+    with open(os.path.join(VERIF, "tables", "baseline_fns.json")) as fh:
+        base_types = json.load(fh).get("param_types", {})
     for path, fn in facts.hir.items():
         sp = strip_generics(path)
         want = _BASE_PARAMS.get(sp)
         have = [p.get("name") for p in fn.get("params", [])]
         if want and None not in have and have != want and sorted(have) == sorted(want) and len(set(have)) == len(have):
             perm[path] = [have.index(n) for n in want]
+        elif want and None not in have and have != want and len(have) == len(want) and base_types.get(sp) \
+                and all(p.get("k") == "Binding" for p in fn.get("params", [])):
+            # parameters renamed (and possibly reordered as well): they are recognised by their types when these
+            # tell them apart, or by position when the types are unchanged; the baseline names are restored
+            wt = base_types[sp]
+            ht = [p.get("ty") for p in fn["params"]]
+            order = None
+            if ht == wt:
+                order = list(range(len(want)))
+            elif sorted(map(str, ht)) == sorted(map(str, wt)) and len(set(map(str, ht))) == len(ht):
+                order = [ht.index(t_) for t_ in wt]
+            if order is not None:
+                ren = {fn["params"][order[i]]["name"]: want[i] for i in range(len(want)) if fn["params"][order[i]]["name"] != want[i]}
+                others = {n_.get("name") for n_ in _walk(fn["body"]) if n_.get("k") == "Binding"} | {p.get("name") for p in fn["params"]}
+                if ren and not (set(ren.values()) & (others - set(ren))):
+                    import hirlib as _H
+                    fn["params"] = _H.rename(fn["params"], ren)
+                    fn["body"] = _H.rename(fn["body"], ren)
+                if order != list(range(len(want))):
+                    perm[path] = order
     if not perm:
         return {}
 
